@@ -25,12 +25,13 @@ def creditTakenLast : Bool :=
           room_order.idx_last___await < room_order.idx_take_credit)
 
 /-- `send_payload_with_transfer`: the arm that was handed permits queues the transfers and ends
-    before the first await of the function; the unsettled entry is made after the transfers are queued -/
+    before the first await of the function; the unsettled entry is made before anything is queued
+    (so that the peer's disposition always finds it) -/
 def reservedArmAwaitFree : Bool :=
   decide (queue_order.idx_Some___permits______ < queue_order.idx_permit___send ∧
           queue_order.idx_permit___send < queue_order.idx_None____ ∧
           queue_order.idx_None____ < queue_order.idx___await ∧
-          queue_order.idx___await < queue_order.idx_unsettled___write)
+          queue_order.idx_unsettled___write < queue_order.idx_Some___permits______)
 
 /-- `send_payload` goes through `credit_and_room_or_detached` first -/
 def roomPathFirst : Bool :=
